@@ -859,7 +859,7 @@ func c16shard(o *c16out, x *c16shardCtx) {
 			continue
 		}
 		// ---- the package is positional: entry i is recipient i's (empty for a recipient without a usable public key)
-		if pkg != nil && (nEntries <= 24 || len(badList) > 0) {
+		if pkg != nil && (nEntries <= 16 || len(badList) > 0) {
 			layout := make([]string, nEntries)
 			shifted := -1
 			for i := 0; i < nEntries; i++ {
